@@ -354,7 +354,7 @@ func runParent(args []string) int {
 			cmd := exec.Command(self, "worker", "-check", o.check, "-tier", o.tier, "-workers", strconv.Itoa(o.workers),
 				"-worker", strconv.Itoa(i), "-verif", o.verif, "-out", out, "-deadline", strconv.Itoa(o.deadline),
 				"-seed", strconv.FormatInt(o.seed, 10), "-workdir", work)
-			cmd.Env = append(os.Environ(), "GOMAXPROCS=2", "TMPDIR="+work)
+			cmd.Env = append(os.Environ(), "GOMAXPROCS=2", "GOGC=400", "TMPDIR="+work)
 			var tail tailBuf
 			cmd.Stderr = &tail
 			cmd.Stdout = &tail
